@@ -311,10 +311,11 @@ pub fn check_document_text(text: &str, want: &Value, st: &mut Stats) {
             let tfo = Variable::try_from(want.clone()).ok().map(|v| var_to_value(&v));
             let de = serde_json::from_value::<Variable>(want.clone()).ok().map(|v| var_to_value(&v));
             let back: Option<Value> = serde_json::from_value::<Value>(serde_json::to_value(&*rc).unwrap_or(Value::Null)).ok();
+            let via_deser: Option<Value> = guarded(|| <Value as serde::Deserialize>::deserialize((*rc).clone()).ok()).unwrap_or(None);
             let all = [
                 ("search(@)", Some(val)), ("print+serde_json", re), ("print+from_json", re2), ("Serialize", ser),
                 ("(&Value).to_jmespath", tj), ("Value.to_jmespath", tj2), ("TryFrom<&Value>", tf), ("TryFrom<Value>", tfo),
-                ("Deserialize", de), ("to_value/from_value", back),
+                ("Deserialize", de), ("to_value/from_value", back), ("Value::deserialize(Variable)", via_deser),
             ];
             for (name, v) in all {
                 if v.as_ref() != Some(want) {
